@@ -56,8 +56,10 @@ def cases(draw, P, S):
     ip, isf = core.load_model_info(P), core.load_model_info(S)
     dim = draw(st.sampled_from(["1d", "1d", "1d", "2d"]))
     ppars = draw(S_.parameter_set(ip, spread=0.25, p_boundary=0.0))
-    pd = draw(S_.dispersity(ip, dim, kmax=min(3, ip.parameters.max_pd), max_mesh=40, allow_cut=False,
-                            include_angles=True))
+    # mostly small meshes; one case in six crosses the 100-point chunk boundary of the compiled kernels
+    big = draw(st.integers(0, 5)) == 0 and c01.cost(P) < 3e-4
+    pd = draw(S_.dispersity(ip, dim, kmax=min(3, ip.parameters.max_pd), max_mesh=260 if big else 40, allow_cut=False,
+                            include_angles=True, kmin=1 if big else 0))
     nmodes = len(ip.radius_effective_modes or [])
     mode = draw(st.integers(0, nmodes)) if nmodes else 0
     beta = draw(st.booleans()) if ip.have_Fq else False
@@ -159,6 +161,11 @@ def check_product(case, rec):
     nontrivial = bool(np.any(np.isfinite(Sq) & (np.abs(Sq - 1) > 1e-6)) and np.any(np.isfinite(want)))
     rec.nontrivial(nontrivial, case)
     sc = np.nanmax(np.abs(want - case["background"])) if np.any(np.isfinite(want)) else 1.0
+    if beta:
+        # <F^2> + <F>^2 (S - 1) cancels when beta ~ 1 and S << 1: rounding error is relative to the summands
+        terms = case["scale"] / Vs * (1.0 if vf_in_p else vf) * (np.abs(F2) + np.abs(F ** 2 * (Sq - 1)))
+        if np.any(np.isfinite(terms)):
+            sc = max(sc, np.nanmax(terms))
     msg = c01.close(I - case["background"], want - case["background"], sc, 1e-12)
     if msg:
         rec.fail("combine:" + tag, "%s@%s mode=%d: %s" % (P, S, mode, msg))
@@ -169,9 +176,11 @@ def check_product(case, rec):
         rec.fail("results:missing", "%s@%s: no intermediate results" % (P, S))
         return
 
-    def near(a, b, what):
+    def near(a, b, what, scale=None):
         a, b = np.asarray(a, float), np.asarray(b, float)
         s_ = np.nanmax(np.abs(b)) if np.any(np.isfinite(b)) else 1.0
+        if scale is not None and np.any(np.isfinite(scale)):
+            s_ = max(s_, np.nanmax(np.abs(scale)))
         msg = c01.close(a, b, s_, 1e-12)
         if msg:
             rec.fail("results:%s:%s" % (what, tag), "%s@%s mode=%d: reported %s: %s" % (P, S, mode, what, msg))
@@ -187,7 +196,9 @@ def check_product(case, rec):
             return
         ok = np.asarray(F2) != 0       # beta = <F>^2/<F^2> is undefined where the particle does not scatter
         near(np.asarray(res["beta(Q)"][1])[ok], (F ** 2 / F2)[ok], "beta(Q)")
-        near((PQ * np.asarray(res["S_eff(Q)"][1], float) + case["background"])[ok], I[ok], "P*S_eff")
+        # S_eff = 1 + beta (S - 1) cancels when S << 1 (effective volume fractions near close packing): the
+        # rounding error of the product is relative to P, not to P*S_eff
+        near((PQ * np.asarray(res["S_eff(Q)"][1], float) + case["background"])[ok], I[ok], "P*S_eff", scale=PQ[ok])
     else:
         near(PQ * np.asarray(res["S(Q)"][1], float) + case["background"], I, "P*S")
 
